@@ -20,5 +20,5 @@ for c in "$@"; do
   echo "  $c: exit=$rc violations=$n  $first"
   RES="$RES $c:exit=$rc:violations=$n"
 done
-git -C /repo checkout -- . ; git -C /repo status --short | head -3
+git -C /repo checkout -- . ; git -C /repo clean -qfd -- crates proof_parser cli; git -C /repo status --short | head -3
 echo "$RES" > $D/result.txt
